@@ -297,7 +297,7 @@ func genChk(ctx context.Context, t *rapid.T, kind string) *ChkCase {
 func TestChecksAPI(t *testing.T) {
 	r := evid.R()
 	ctx := context.Background()
-	r.Check(t, r.Scale(160, 6000), 6, func(t *rapid.T) {
+	r.Check(t, r.Scale(160, 3500), 6, func(t *rapid.T) {
 		c := genChk(ctx, t, "checks-api")
 		if c.What == "lint" {
 			c.Version = []string{"v1", "v2"}[rapid.IntRange(0, 1).Draw(t, "version")]
@@ -438,7 +438,7 @@ func runChecksCLI(ctx context.Context, t fataler, r *evid.Recorder, c *ChkCase) 
 func TestChecksCLI(t *testing.T) {
 	r := evid.R()
 	ctx := context.Background()
-	r.Check(t, r.Scale(40, 1600), 7, func(t *rapid.T) {
+	r.Check(t, r.Scale(40, 900), 7, func(t *rapid.T) {
 		c := genChk(ctx, t, "checks-cli")
 		runChecksCLI(ctx, t, r, c)
 	})
